@@ -159,7 +159,18 @@ func TestVerifC02Yamux(t *testing.T) {
 			wl := []int{tot}
 			bl := []int{1 + r.Intn(8192), 4096}
 			var y network.MuxedStream
-			line := verifh.StreamCaseRetry(5, 200, r.Intn(1<<19), wl, bl, x, x.CloseWrite, yamuxLazy{&y}, 50*time.Second,
+			// the writer half-closes only after the reader has met the timeout (after a FIN no
+			// window update is due any more)
+			release := make(chan struct{})
+			var once sync.Once
+			lateClose := func() error {
+				select {
+				case <-release:
+				case <-time.After(3 * time.Second):
+				}
+				return x.CloseWrite()
+			}
+			line := verifh.StreamCaseRetry(5, 200, r.Intn(1<<19), wl, bl, x, lateClose, yamuxLazy{&y}, 50*time.Second,
 				func() {
 					var err error
 					y, err = srv.AcceptStream()
@@ -169,7 +180,10 @@ func TestVerifC02Yamux(t *testing.T) {
 					time.Sleep(300 * time.Millisecond) // let the data land in the receive buffer
 					y.SetReadDeadline(time.Now().Add(-time.Second))
 				},
-				func() { y.SetReadDeadline(time.Now().Add(30 * time.Second)) })
+				func() {
+					y.SetReadDeadline(time.Now().Add(30 * time.Second))
+					once.Do(func() { close(release); out.Cover("yamux.timeouts_returned_with_data_or_alone") })
+				})
 			out.Case(line)
 			out.Cover("yamux.reads_after_expired_deadline")
 			srv.Close()
